@@ -469,7 +469,10 @@ pub fn main(args: &[String]) -> i32 {
     let lets = format!("{{ {} 0 }}", (0..300).map(|i| format!("let a{i} = {i}; ")).collect::<String>());
     let arms = format!("match _0 {{ {} _ => 0 }}", (0..150).map(|i| format!("{} | {} => {i}, ", 2 * i, 2 * i + 1)).collect::<String>());
     let returns = format!("(|| -> u32 {{ match _0 {{ {} _ => 0 }} }})()", (0..300).map(|i| format!("{i} => return {i}, ")).collect::<String>());
-    for big in [&ladder, &lets, &arms, &returns] {
+    let ors = format!("[{}].len()", (0..130).map(|_| "*_0 == 1 || *_0 == 2".to_string()).collect::<Vec<_>>().join(", "));
+    let ors_flat = (0..130).map(|_| "*_0 == 1 || *_0 == 2".to_string()).collect::<Vec<_>>().join(", ");
+    work.push((vec!["_0 | 1".into(), "_0 | 2".into(), "_1".into(), ors_flat], false));
+    for big in [&ladder, &lets, &arms, &returns, &ors] {
         for (a, b) in [("_0 | 1", "_0 | 2"), ("a < b", "c > d"), ("|x| x + 1", "y"), ("S { a: 1 }", "ident")] {
             work.push((vec![a.into(), b.into(), big.clone()], false));
             work.push((vec![big.clone(), a.into(), b.into()], false));
